@@ -208,6 +208,10 @@ func scanStringLiteralToken(buf string, pos int) Token {
 		} else if c == '\n' {
 			// the value is emitted as a Go interpreted string literal, which cannot contain a raw newline.
 			bb.WriteString("\\n")
+		} else if isStringAt(buf, pos+i, "\xef\xbb\xbf") {
+			// Go rejects a byte order mark in the middle of a source file: write it as an escape.
+			bb.WriteString("\\ufeff")
+			i += 2
 		} else {
 			bb.WriteByte(c)
 		}
@@ -239,6 +243,9 @@ func scanRawStringLiteralToken(buf string, pos int) Token {
 			bb.WriteString("\\\"")
 		} else if c == '\n' {
 			bb.WriteString("\\n")
+		} else if isStringAt(buf, pos+i, "\xef\xbb\xbf") {
+			bb.WriteString("\\ufeff")
+			i += 2
 		} else {
 			bb.WriteByte(c)
 		}
